@@ -144,7 +144,16 @@ def run_replay(pid, path):
     doc = json.load(open(path))
     T = engine.Tally(pid=pid)
     getattr(mod, 'worker_init', lambda: None)()
-    mod.replay(doc['sub'], engine.unjson(doc['case']), T)
+    if doc['sub'] == 'harness':
+        # a job that crashed: run that job again
+        import pickle, traceback as _tb
+        job = pickle.loads(bytes.fromhex(doc['case']['job_pickle']))
+        try:
+            mod.run_job(job, T)
+        except BaseException:
+            T.violation('harness', doc['kind'], doc['case'], detail=_tb.format_exc()[-1500:])
+    else:
+        mod.replay(doc['sub'], engine.unjson(doc['case']), T)
     if T.violation_total:
         for v in T.violations:
             log('VIOLATION property=%s replay=%s' % (pid, path))
